@@ -117,6 +117,8 @@ class Scope:
             return
         if k == "field":
             out.add("field:%s.%s" % (e.get("adt"), e["name"]))
+            if getattr(self, "qualified", False):
+                out.add("q:%s" % self.canon(e))       # base-sensitive: *whose* field is read
             self._tok(e["base"], out, seen, control, depth + 1)
             return
         if k == "lit":
@@ -133,6 +135,24 @@ class Scope:
             out.add("call:%s" % c)
             if e.get("resolved"):
                 out.add("call:%s" % e["resolved"])
+            # local helper: its result depends on what its own body reads (parameters are covered by the arguments below)
+            if getattr(self, "follow_local_calls", False):
+                g = self.C.fn(e.get("resolved") or "") or self.C.fn(e.get("callee") or "")
+                stack = getattr(self, "_call_stack", ())
+                if g is not None and g["path"] not in stack and len(stack) < 4 and g["path"] != self.f["path"]:
+                    sub = Scope(self.C, g)
+                    sub.follow_local_calls = True
+                    sub.qualified = getattr(self, "qualified", False)
+                    sub._call_stack = stack + (self.f["path"],)
+                    # express the callee's reads in the caller's terms: parameter -> canonical argument
+                    args = list(e.get("args", []))
+                    if k == "mcall":
+                        args = [e["recv"]] + args
+                    sub.subst = {}
+                    for p, a in zip(g["params"], args):
+                        if p.get("k") == "bind":
+                            sub.subst[p["name"]] = self.canon(a)
+                    out |= {t for t in sub.tokens(g["body"], control=control) if not t.startswith(("param", "self", "unbound", "cparam"))}
         if k in ("ctor", "struct"):
             out.add("variant:%s::%s" % (e.get("adt"), e.get("variant")))
         if k == "closure":
@@ -186,6 +206,9 @@ class Scope:
                         base += ".%d" % st[1]
                 return base
             if d and d[0] == "param":
+                sub = getattr(self, "subst", None)
+                if sub and e["name"] in sub:
+                    return sub[e["name"]]
                 return e["name"]
             if d and d[0] == "cparam":
                 return "%s@%s" % (e["name"], d[1]["def"].split("::")[-1])
